@@ -6,7 +6,7 @@ designspace documents that bind them (axis maps included).
 A family is described by a JSON-able dict `fam`:
   naxes    1..3
   dflt     [lattice index of the default per axis]   (lattice = 5 user positions per axis)
-  map      "none" | "lin" | "bent"
+  map      "none" | "lin" | "bent" | "bent2"
   kind     "ttf" | "cff"
   content  "outl" | "comp" | "kern" | "kernx" | "mark" | "mvar" | "sparseg" | "sparsel"
   coef     int, perturbs every value
@@ -47,20 +47,27 @@ def axis_setup(ai, dflt_idx, mapkind):
     dlo, dhi = F(dlo), F(dhi)
     ddf = dlo if dflt_idx == 0 else dhi if dflt_idx == 4 else dlo + (dhi - dlo) / 4
     bend = [(F(-1), F(-1)), (F(0), F(0)), (F(1), F(1))]
-    knot_un = None
+    knots = []  # (normalised user position, normalised design position)
     if mapkind == "bent":
         # one extra knot off the straight line, on the side of the default that has room
         knot_un = F(-1, 2) if dflt_idx == 4 else F(1, 2)
-        bend.append((knot_un, knot_un / 2))
-    dn = [ref.pl_forward(bend, x) for x in un]
+        knots.append((knot_un, knot_un / 2))
+    elif mapkind == "bent2":
+        # two extra knots on that side: the first ON the normalised diagonal (its input equals its
+        # output, yet it is needed because the next one bends the line), the second off it
+        sgn = -1 if dflt_idx == 4 else 1
+        knots.append((sgn * F(1, 2), sgn * F(1, 2)))
+        knots.append((sgn * F(3, 4), sgn * F(7, 8)))
+    bend += knots
+    dn = [ref.pl_forward(sorted(bend), x) for x in un]
 
     def design_of(n):
         return ddf + n * (dhi - ddf) if n >= 0 else ddf + n * (ddf - dlo)
 
     amap = {F(lo): dlo, F(df): ddf, F(hi): dhi}
-    if knot_un is not None:
+    for knot_un, knot_dn in knots:
         ku = df + knot_un * (hi - df) if knot_un > 0 else df + knot_un * (df - lo)
-        amap[F(ku)] = design_of(knot_un / 2)
+        amap[F(ku)] = design_of(knot_dn)
     return dict(tag=tag, name=name, min=lo, default=df, max=hi, map=sorted(amap.items()), user=list(user),
                 design=[design_of(n) for n in dn], dn=dn)
 
